@@ -146,3 +146,25 @@ PROPS["C14"] = dict(level="exploration",
                 quick=(25, 400000), thorough=(300, 20000000))],
     assumptions=_DS_ASSUME + ["the kernel side (pipe, eventfd, timerfd, epoll) is real and not under schedule control; epoll_wait is hooked so that the loop thread never sleeps in the kernel while another thread can run",
                               "syscall failures and short transfers are injected at the readv/writev call sites of the library (generated index and errno)"])
+
+# ---- C20: the same generated cases under each build configuration; observable digests must be identical
+_EF_C20 = gen_shapes("ef_c20", 20260924, int(os.environ.get("VERIF_EF_C20_COUNT", "30")), extra=["--exclude", "K_SIR", "--no-targeted"])
+def _c20_units():
+    us = []
+    def grp(prefix, src, extra_src, ref_cfg, cfgs, quick, thorough, max_size):
+        ref = Unit("%s_%s" % (prefix, ref_cfg), src, cfg=ref_cfg, extra_src=extra_src, max_size=max_size, shards=8, quick=quick, thorough=thorough)
+        ref.is_ref = True
+        us.append(ref)
+        for c in cfgs:
+            t = Unit("%s_%s" % (prefix, c), src, cfg=c, extra_src=extra_src, max_size=max_size, shards=8, quick=quick, thorough=thorough,
+                     args={"ref-binary": ref.binary, "ref-name": ref_cfg})
+            t.ref_unit = ref.name
+            us.append(t)
+    grp("ef20", "harness/exprfuzz.cpp", ["exprfuzz/pinned.cpp"] + _EF_C20, "p17", ["r17", "s17", "v17", "p20"], (40, 48000), (300, 2000000), 90)
+    grp("st20", "harness/c13_streams.cpp", [], "p17", ["r17", "s17", "p20"], (30, 48000), (240, 2000000), 90)
+    grp("tk20", "harness/c10_tasks.cpp", [], "p20", ["s20"], (25, 48000), (240, 2000000), 100)
+    return us
+PROPS["C20"] = dict(level="exploration", units=_c20_units(),
+    assumptions=["every configuration runs the same generated byte strings (same seeds); a digest is the harness's record of what a user can observe: completion channel, values / error identity, completion context, relative order of starts, completions, stop observations and cleanups",
+                 "configurations: p17 = C++17, assertions on, no async stacks (reference); r17 = C++17 -DNDEBUG (assertions and async stacks compiled out); s17 = C++17 with async stack tracing; v17 = C++17 with UNIFEX_ENABLE_CONTINUATION_VISITATIONS=1; p20 = C++20 (clang); s20 = C++20 (g++) with async stack tracing (coroutine tasks)",
+                 "copy/move counts of values and allocation counts are not part of the digest (the language may elide differently)"])
